@@ -736,10 +736,49 @@ def zero_conditions(t, facts=None, depth=0):
             out.append([(t[1], "Z")] + x)
         return out
     if k == "icmp":
+        if t[3][0] == "c" and t[3][1] == 0 and t[1] == "ne":
+            return zero_conditions(t[2], facts, depth + 1)
+        if t[3][0] == "c" and t[3][1] == 0 and t[1] == "eq":
+            return nonzero_conditions(t[2], facts, depth + 1)
         return [[(t, "Z")]]
     if k == "not":
-        return [[(t[1], "NZ")]]
+        return nonzero_conditions(t[1], facts, depth + 1)
     return [[(t, "Z")]]
+
+
+def nonzero_conditions(t, facts=None, depth=0):
+    """dual of zero_conditions: alternative atom sets under which t is non-zero"""
+    if facts is not None:
+        z = facts.zeroness(t)
+        if z == "NZ":
+            return [[]]
+        if z == "Z":
+            return []
+    if depth > 6:
+        return [[(t, "NZ")]]
+    k = t[0]
+    if k == "cast" and t[1] in ("zext", "sext"):
+        return nonzero_conditions(t[2], facts, depth + 1)
+    if k == "icmp" and t[3][0] == "c" and t[3][1] == 0 and t[1] in ("ne", "eq"):
+        if t[1] == "ne":
+            return nonzero_conditions(t[2], facts, depth + 1)
+        return zero_conditions(t[2], facts, depth + 1)
+    if k == "not":
+        return zero_conditions(t[1], facts, depth + 1)
+    if k == "bin" and t[1] == "and":
+        ca = nonzero_conditions(t[2], facts, depth + 1)
+        cb = nonzero_conditions(t[3], facts, depth + 1)
+        return [x + y for x in ca for y in cb]
+    if k == "bin" and t[1] == "or":
+        return nonzero_conditions(t[2], facts, depth + 1) + nonzero_conditions(t[3], facts, depth + 1)
+    if k == "select":
+        out = []
+        for x in nonzero_conditions(t[2], facts, depth + 1):
+            out.append([(t[1], "NZ")] + x)
+        for x in nonzero_conditions(t[3], facts, depth + 1):
+            out.append([(t[1], "Z")] + x)
+        return out
+    return [[(t, "NZ")]]
 
 
 def show(t, fn=None, depth=0):
